@@ -12,6 +12,14 @@ sys.path.insert(0, HERE)
 
 ALLOWED_AXIOMS = {'propext', 'Classical.choice', 'Quot.sound'}
 
+def _run_shard(prop, tier, seed):
+    import props, props2
+    for mod in (props, props2):
+        f = getattr(mod, 'c' + prop[1:], None)
+        if f is not None:
+            return f(tier, seed)
+    raise RuntimeError('no such property ' + prop)
+
 def main():
     ap = argparse.ArgumentParser()
     ap.add_argument('prop')
@@ -60,8 +68,34 @@ def main():
             else:
                 proof_problems.append('theorem %s not discharged (%s)' % (t, audit.get(t, 'missing from audit')))
 
+        if a.tier == 'thorough' and build_ok:
+            # independent re-check of the compiled proofs of the property theorems' module
+            import subprocess
+            pc = subprocess.run(['lake', 'env', 'leanchecker', 'PyhamModel.Props'], cwd=core.LEAN_DIR, stdout=subprocess.PIPE, stderr=subprocess.STDOUT, text=True)
+            if pc.returncode != 0:
+                proof_problems.append('leanchecker rejected PyhamModel.Props: ' + pc.stdout[-400:])
+
         # ---- 2. correspondence + oracles
-        res = table[prop](a.tier, seed)
+        if a.tier == 'thorough':
+            # 8 independent shards (derived seeds) on separate processes, results merged
+            import multiprocessing as mp
+            shards = int(os.environ.get('VERIF_SHARDS', '8'))
+            with mp.get_context('fork').Pool(shards) as pool:
+                parts = pool.starmap(_run_shard, [(prop, a.tier, seed * 1009 + k * 7919 + (0 if k else 0)) if k else (prop, a.tier, seed) for k in range(shards)])
+            res = parts[0]
+            for r in parts[1:]:
+                res.evaluations += r.evaluations
+                res.nontrivial |= r.nontrivial
+                res.mismatches += r.mismatches
+                res.oracle_failures += r.oracle_failures
+                res.infra += r.infra
+                res.traces_validated += r.traces_validated
+                res.notes += r.notes
+                for k2, v in r.hist.items():
+                    res.hist[k2] = res.hist.get(k2, 0) + v
+            res.notes.append('thorough tier: %d shards with derived seeds' % shards)
+        else:
+            res = table[prop](a.tier, seed)
 
         # ---- 3. verdict
         known = [k for k in core.load_known_findings() if k.get('property') == prop and k.get('status') == 'open']
